@@ -195,9 +195,19 @@ package solver
 
 //@ define WFsepWl(s *Solver) bool = (arr(s.wl.wlistBin) != arr(s.wl.wlist) || cap(s.wl.wlistBin) == 0 || cap(s.wl.wlist) == 0) && (arr(s.wl.wlistPb) != arr(s.wl.wlistCardAMO) || cap(s.wl.wlistPb) == 0 || cap(s.wl.wlistCardAMO) == 0)
 
+// insert (trusted: the heap order is not specified): n is in the queue afterwards, whatever was in stays in
+//@ func (*queue).insert
+//@   trusted
+//@   requires nn: q != nil && n >= 0
+//@   modifies q.content, q.indices, q.content[*], q.indices[*]
+//@   ensures  in:   n < len(q.indices) && q.indices[n] >= 0 && len(q.indices) >= old(len(q.indices))
+//@   ensures  kept: forall(k, 0, old(len(q.indices)), old(q.indices[k]) >= 0 ==> q.indices[k] >= 0)
+//@   ensures  own:  grown(q.content) && grown(q.indices)
+
 //@ func newQueue
 //@   trusted
 //@   ensures act: result.activity == activity && fresh(result.content) && fresh(result.indices)
+//@   ensures all: len(result.indices) >= len(activity) && forall(v, 0, len(activity), result.indices[v] >= 0)
 
 //@ func (*Solver).addVarWatcherList
 //@   requires wf: s != nil && s.nbVars >= 0 && len(s.wl.wlistBin) == 2*s.nbVars && len(s.wl.wlist) == 2*s.nbVars && len(s.wl.wlistPb) == 2*s.nbVars && len(s.wl.wlistCardAMO) == 2*s.nbVars
@@ -214,6 +224,7 @@ package solver
 //@   ensures  nilWl:  forall(k, 2*s.nbVars, len(s.wl.wlist), s.wl.wlist[k] == nil)
 //@   ensures  nilPb:  forall(k, 2*s.nbVars, len(s.wl.wlistPb), s.wl.wlistPb[k] == nil)
 //@   ensures  nilAMO: forall(k, 2*s.nbVars, len(s.wl.wlistCardAMO), s.wl.wlistCardAMO[k] == nil)
+//@   ensures  own:  grown(s.wl.wlistBin) && grown(s.wl.wlist) && grown(s.wl.wlistPb) && grown(s.wl.wlistCardAMO)
 //@   loop 1
 //@     invariant idx: s.nbVars <= i && (i <= cnfVar || i == s.nbVars) && cnfVar == v + 1
 //@     invariant lens: len(s.wl.wlistBin) == 2*i && len(s.wl.wlist) == 2*i && len(s.wl.wlistPb) == 2*i && len(s.wl.wlistCardAMO) == 2*i
@@ -240,6 +251,10 @@ package solver
 //@   ensures  keepP: forall(k, 0, old(s.nbVars), s.polarity[k] == old(s.polarity[k]))
 //@   ensures  unboundM: forall(k, old(s.nbVars), s.nbVars, s.model[k] == 0)
 //@   ensures  unboundR: forall(k, old(s.nbVars), s.nbVars, s.reason[k] == nil)
+//@   ensures  own:   grown(s.model) && grown(s.activity) && grown(s.polarity) && grown(s.reason) && grown(s.trailBuf) && grown(s.assumptions) && grown(s.pbSetBuf) && grown(s.pbSetBuf2)
+//@   ensures  ownWl: grown(s.wl.wlistBin) && grown(s.wl.wlist) && grown(s.wl.wlistPb) && grown(s.wl.wlistCardAMO)
+//@   ensures  ownQ:  grown(s.varQueue.content) && grown(s.varQueue.indices)
+//@   ensures  inQ:   v >= old(s.nbVars) ==> len(s.varQueue.indices) >= s.nbVars && forall(k, 0, s.nbVars, s.varQueue.indices[k] >= 0)
 //@   loop 1
 //@     invariant idx:  s.nbVars == old(s.nbVars) && s.nbVars <= i && i <= cnfVar && cnfVar == v + 1
 //@     invariant lens: len(s.model) == i && len(s.activity) == i && len(s.polarity) == i && len(s.reason) == i && len(s.trailBuf) == i && len(s.assumptions) == i && len(s.pbSetBuf) == i && len(s.pbSetBuf2) == i
@@ -283,6 +298,11 @@ package solver
 //@   modifies lits[*], weights[*]
 //@   sort Sort#1 modifies lits[*], weights[*]
 //@   sort Sort#1 invariant perm: psum(lits, weights, A, len(lits)) == old(psum(lits, weights, A, len(lits)))
+//@   sort Sort#1 invariant wfl:  old(litsWF(lits, 1073741823)) ==> litsWF(lits, 1073741823)
+//@   sort Sort#1 invariant wrng: old(forall(k, 0, len(weights), 0 <= weights[k] && weights[k] <= 1073741824)) ==> forall(k, 0, len(weights), 0 <= weights[k] && weights[k] <= 1073741824)
+//@   ensures  arrs:  result.lits == lits && (weights != nil ==> result.pbData.weights == weights) && (weights == nil ==> fresh(result.pbData.weights)) && result.lbdValue == card - 1
+//@   ensures  wfl:   old(litsWF(lits, 1073741823)) ==> litsWF(result.lits, 1073741823)
+//@   ensures  wrng:  old(forall(k, 0, len(weights), 0 <= weights[k] && weights[k] <= 1073741824)) ==> forall(k, 0, len(result.lits), 0 <= result.pbData.weights[k] && result.pbData.weights[k] <= 1073741824)
 //@   ensures  shape: result != nil && fresh(result) && result.pbData != nil && len(result.lits) == len(lits) && len(result.pbData.weights) == len(lits) && len(result.pbData.watched) == len(lits)
 //@   ensures  card:  result.Cardinality() == card && !result.Learned()
 //@   ensures  sem:   holds(result, A) <==> (old(psum(lits, weights, A, len(lits))) >= card)
@@ -374,7 +394,8 @@ package solver
 //@ define agreesL1(s *Solver, A asg) bool = forall(v, 0, len(s.model), (s.model[v] == 1 ==> A[v]) && (s.model[v] == -1 ==> !A[v]))
 //@ define smodels(s *Solver, A asg) bool = forall(i, 0, len(s.wl.origClauses), holds(s.wl.origClauses[i], A)) && agreesL1(s, A)
 //@ define costOf(s *Solver, A asg) int = psum(s.minLits, s.minWeights, A, len(s.minLits))
-//@ define WFopt(s *Solver) bool = s != nil && WFlen(s) && WFsep(s) && WFsepWl(s) && (s.minWeights == nil || len(s.minWeights) == len(s.minLits)) && forall(k, 0, len(s.minLits), 0 <= s.minLits[k] && s.minLits[k] < 2*s.nbVars) && forall(k, 0, len(s.minWeights), s.minWeights[k] >= 0) && s.nbVars <= 1073741824
+//@ define sepInt(w []int, s *Solver) bool = !aliased(w, s.trailBuf) && !aliased(w, s.pbSetBuf) && !aliased(w, s.pbSetBuf2) && !aliased(w, s.varQueue.content) && !aliased(w, s.varQueue.indices)
+//@ define WFopt(s *Solver) bool = s != nil && WFlen(s) && WFsep(s) && WFsepWl(s) && (s.minWeights == nil || len(s.minWeights) == len(s.minLits)) && forall(k, 0, len(s.minLits), 0 <= s.minLits[k] && s.minLits[k] < 2*s.nbVars) && forall(k, 0, len(s.minWeights), s.minWeights[k] >= 0) && s.nbVars <= 1073741823 && sepInt(s.minWeights, s) && !aliased(s.model, s.lastModel) && !aliased(s.units, s.minLits) && !aliased(s.units, s.hypothesis)
 //@ define sameMin(s *Solver) bool = s.minLits == old(s.minLits) && s.minWeights == old(s.minWeights) && forall(k, 0, len(s.minLits), s.minLits[k] == old(s.minLits[k])) && forall(k, 0, len(s.minWeights), s.minWeights[k] == old(s.minWeights[k]))
 //@ define better(s *Solver, B asg, cost int) bool = cost == 0 || costOf(s, B) <= cost - 1
 //@ define total(s *Solver) bool = forall(v, 0, len(s.model), s.model[v] != 0)
@@ -398,7 +419,7 @@ package solver
 // what the constraint c is worth under A, and its total weight over the first n literals
 //@ define psumc(c *Clause, A asg) int = ite(c.pbData == nil, psum(c.lits, nil, A, len(c.lits)), psum(c.lits, c.pbData.weights, A, len(c.lits)))
 //@ define wsumc(c *Clause, n int) int = ite(c.pbData == nil, n, wsum(c.pbData.weights, n))
-//@ define cwf(c *Clause) bool = c != nil && !c.Learned() && c.lbdValue < 1073741824 && litsWF(c.lits, 1073741823) && (c.pbData != nil ==> c.pbData.weights != nil && len(c.pbData.weights) == len(c.lits) && forall(k, 0, len(c.lits), c.pbData.weights[k] >= 1) && wsum(c.pbData.weights, len(c.lits)) <= 1073741824)
+//@ define cwf(c *Clause) bool = c != nil && !c.Learned() && c.lbdValue < 1073741824 && litsWF(c.lits, 1073741823) && len(c.lits) <= 1073741824 && (c.pbData != nil ==> c.pbData.weights != nil && len(c.pbData.weights) == len(c.lits) && forall(k, 0, len(c.lits), 0 <= c.pbData.weights[k] && c.pbData.weights[k] <= 1073741824))
 
 // propagateUnits: the body is verified for the structural part (bound: every listed unit ends up
 // true at level 1 unless the solver turns Unsat; a unit whose negation is already true at the top
@@ -426,12 +447,12 @@ package solver
 //@   ensures  bound: s.model[lit / 2] == ite(lit % 2 == 0, lvl, -lvl) || lvl == 0
 //@   ensures  wf:    WFlen(s) && s.nbVars == old(s.nbVars)
 //@   ensures  trail: grown(s.trail)
-//@   ensures  keepl: arr(keepl) != arr(old(s.trail)) ==> forall(k, 0, len(keepl), keepl[k] == old(keepl[k]))
+//@   ensures  keepl: !aliased(keepl, old(s.trail)) ==> forall(k, 0, len(keepl), keepl[k] == old(keepl[k]))
 
 //@ func (*Solver).propagateUnits
 //@   ghost A asg
 //@   requires wf: WFopt(s) && litsWF(units, s.nbVars)
-//@   requires sepu: arr(units) != arr(s.trail)
+//@   requires sepu: !aliased(units, s.trail)
 //@   instantiate (*Solver).unifyLiteral#1 keepl = units
 //@   modifies s.*, all Clause.lits, all Clause.lbdValue, all Clause.activity, all pbData.weights, all pbData.watched, all []Lit, all []decLevel, all []bool, all []int, all []*Clause, all []watcher, all [][]watcher, all [][]*Clause, all []float64
 //@   ensures  bound: s.status != Unsat ==> forall(k, 0, len(units), s.model[old(units[k]) / 2] == ite(old(units[k]) % 2 == 0, 1, -1))
@@ -442,7 +463,7 @@ package solver
 //@   ensures  flags:  s.Verbose == old(s.Verbose) && s.lastModel == old(s.lastModel) && forall(v, 0, len(s.lastModel), s.lastModel[v] == old(s.lastModel[v]))
 //@   loop 1
 //@     invariant idx:   0 <= rangei && rangei <= len(units) && s != nil && WFlen(s) && s.nbVars == old(s.nbVars) && s.status == old(s.status)
-//@     invariant sepu:  arr(units) != arr(s.trail) && forall(k, 0, len(units), units[k] == old(units[k]))
+//@     invariant sepu:  !aliased(units, s.trail) && forall(k, 0, len(units), units[k] == old(units[k]))
 //@     invariant bound: forall(k, 0, rangei, s.model[old(units[k]) / 2] == ite(old(units[k]) % 2 == 0, 1, -1))
 
 //@ func (*Solver).appendClause
@@ -450,38 +471,48 @@ package solver
 //@   ghost A asg
 //@   requires wf: WFopt(s) && clause != nil && litsWF(clause.lits, s.nbVars)
 //@   modifies s.wl.origClauses, s.wl.origClauses[*], s.wl.wlist[*], s.wl.wlistBin[*], s.wl.wlistPb[*], s.wl.wlistCardAMO[*], clause.lits[*], clause.pbData.weights[*], clause.pbData.watched[*], all []watcher, all []*Clause
-//@   ensures  wf:    WFopt(s)
+//@   ensures  wf:    WFopt(s) && s.nbVars == old(s.nbVars) && sameCost(s)
 //@   ensures  keep:  smodels(s, A) <==> (old(smodels(s, A)) && old(holds(clause, A)))
+//@   ensures  flags: s.status == old(s.status) && s.Verbose == old(s.Verbose) && s.lastModel == old(s.lastModel) && forall(v, 0, len(s.lastModel), s.lastModel[v] == old(s.lastModel[v]))
 
-// AppendClause: TRUSTED at call sites. A full contract (loop invariants below) was drafted but its
-// obligations are not discharged yet, so the body is not verified; DESIGN.md 11.7.
+// AppendClause: the normalisation loop is verified structurally: literals that are true / false at
+// the top level or have weight 0 are removed, the degree is lowered by exactly the weight of the
+// removed true literals (cardv), maxW - minW is the total weight of what is left (sums), what is
+// left is unbound, has a positive weight and mentions only variables the solver now knows; the
+// unit rule is only applied to such literals (unitpos, unitfree); the solver's representation
+// invariant WFopt is re-established and the cost function is untouched. The semantic clauses
+// keep / unsat rest on unit propagation and the watch lists (propagateUnits, appendClause) and are
+// NOT discharged: callers assume them (listed in the evidence).
 //@ func (*Solver).AppendClause
-//@   trusted
 //@   ghost A asg
 //@   requires wf:  WFopt(s)
-//@   requires cl:  clause != nil && !clause.Learned() && clause.Cardinality() >= 1
-//#   requires owned: forall(v, 0, s.nbVars, s.reason[v] != clause) && forall(i, 0, len(s.wl.origClauses), s.wl.origClauses[i] != clause && arr(s.wl.origClauses[i].lits) != arr(clause.lits) && (s.wl.origClauses[i].pbData != nil && clause.pbData != nil ==> s.wl.origClauses[i].pbData != clause.pbData && arr(s.wl.origClauses[i].pbData.weights) != arr(clause.pbData.weights)))
+//@   requires cl:  cwf(clause) && clause.Cardinality() >= 1 && clause.Cardinality() <= 1073741824
+//@   requires owned: forall(v, 0, s.nbVars, s.reason[v] != clause) && (clause.pbData != nil ==> sepInt(clause.pbData.weights, s) && !aliased(clause.pbData.weights, s.minWeights))
+//@   requires ownedL: !aliased(clause.lits, s.trail) && !aliased(clause.lits, s.units) && !aliased(clause.lits, s.hypothesis) && !aliased(clause.lits, s.minLits)
 //@   modifies s.*, clause.*, all Clause.lits, all Clause.lbdValue, all pbData.weights, all pbData.watched, all []Lit, all []decLevel, all []bool, all []int, all []*Clause, all []watcher, all [][]watcher, all [][]*Clause, all []float64
-//#   instantiate (*Solver).cleanupBindings#1 keepc = clause
-//#   assert after-call (*Solver).cleanupBindings#1 c1: smodels(s, A) <==> old(smodels(s, A))
-//#   assert after-call (*Solver).cleanupBindings#1 c2: holds(clause, A) <==> old(holds(clause, A))
-//#   loop 1
-//#     modifies s.model, s.activity, s.polarity, s.reason, s.assumptions, s.trailBuf, s.pbSetBuf, s.pbSetBuf2, s.varQueue, s.nbVars, s.model[*], s.activity[*], s.polarity[*], s.reason[*], s.assumptions[*], s.trailBuf[*], s.pbSetBuf[*], s.pbSetBuf2[*], s.wl.wlistBin, s.wl.wlist, s.wl.wlistPb, s.wl.wlistCardAMO, s.wl.wlistBin[*], s.wl.wlist[*], s.wl.wlistPb[*], s.wl.wlistCardAMO[*], clause.lits, clause.lits[*], clause.lbdValue, clause.pbData.weights, clause.pbData.weights[*]
-//#     invariant wf:    s != nil && WFlen(s) && WFsep(s) && WFsepWl(s) && s.nbVars >= entry1(s.nbVars) && s.nbVars <= 1073741824
-//#     invariant own:   grown(s.model) && grown(s.activity) && grown(s.polarity) && grown(s.reason) && grown(s.trailBuf) && grown(s.assumptions) && grown(s.pbSetBuf) && grown(s.pbSetBuf2) && grown(s.wl.wlistBin) && grown(s.wl.wlist) && grown(s.wl.wlistPb) && grown(s.wl.wlistCardAMO)
-//#     invariant cwf:   cwf(clause) && sameArray(clause.lits, entry1(clause.lits)) && (clause.pbData != nil) == entry1(clause.pbData != nil) && (clause.pbData != nil ==> sameArray(clause.pbData.weights, entry1(clause.pbData.weights)))
-//#     invariant idx:   0 <= i && i <= len(clause.lits) && minW >= 0 && card == entry1(clause.Cardinality()) && card >= 1
-//#     invariant l1:    forall(v, 0, s.nbVars, absi(s.model[v]) <= 1)
-//#     invariant mkeep: forall(v, 0, entry1(s.nbVars), s.model[v] == entry1(s.model[v])) && forall(v, entry1(s.nbVars), s.nbVars, s.model[v] == 0)
-//#     invariant kept:  forall(k, 0, i, s.model[clause.lits[k] / 2] == 0)
-//#     invariant sums:  maxW == minW + wsumc(clause, i)
-//#     invariant cardv: clause.Cardinality() == maxi(card - minW, 1)
-//#     invariant sem:   agreesL1(s, A) ==> entry1(psumc(clause, A)) == minW + psumc(clause, A)
-//@   ensures  wf:    WFopt(s) && s.nbVars >= old(s.nbVars) && sameCost(s)
+//@   instantiate (*Solver).cleanupBindings#1 keepc = clause
+//@   assert before-call (*Solver).propagateUnits#1 unitpos: clause.pbData != nil ==> forall(k, 0, len(clause.lits), clause.pbData.weights[k] >= 1)
+//@   assert before-call (*Solver).propagateUnits#1 unitfree: forall(k, 0, len(clause.lits), s.model[clause.lits[k] / 2] == 0)
+//@   loop 1
+//@     modifies s.model, s.activity, s.polarity, s.reason, s.assumptions, s.trailBuf, s.pbSetBuf, s.pbSetBuf2, s.varQueue, s.nbVars, s.model[*], s.activity[*], s.polarity[*], s.reason[*], s.assumptions[*], s.trailBuf[*], s.pbSetBuf[*], s.pbSetBuf2[*], s.wl.wlistBin, s.wl.wlist, s.wl.wlistPb, s.wl.wlistCardAMO, s.wl.wlistBin[*], s.wl.wlist[*], s.wl.wlistPb[*], s.wl.wlistCardAMO[*], clause.lits, clause.lits[*], clause.lbdValue, clause.pbData.weights, clause.pbData.weights[*]
+//@     invariant wf:    s != nil && WFlen(s) && WFsep(s) && WFsepWl(s) && s.nbVars >= entry1(s.nbVars) && s.nbVars <= 1073741823
+//@     invariant own:   grown(s.model) && grown(s.activity) && grown(s.polarity) && grown(s.reason) && grown(s.trailBuf) && grown(s.assumptions) && grown(s.pbSetBuf) && grown(s.pbSetBuf2) && grown(s.wl.wlistBin) && grown(s.wl.wlist) && grown(s.wl.wlistPb) && grown(s.wl.wlistCardAMO) && grown(s.varQueue.content) && grown(s.varQueue.indices)
+//@     invariant shape: clause != nil && !clause.Learned() && clause.lbdValue < 1073741824 && litsWF(clause.lits, 1073741823) && sameArray(clause.lits, entry1(clause.lits)) && len(clause.lits) <= entry1(len(clause.lits)) && (clause.pbData != nil) == entry1(clause.pbData != nil)
+//@     invariant shapeW: clause.pbData != nil ==> clause.pbData.weights != nil && len(clause.pbData.weights) == len(clause.lits) && sameArray(clause.pbData.weights, entry1(clause.pbData.weights)) && forall(k, 0, len(clause.lits), 0 <= clause.pbData.weights[k] && clause.pbData.weights[k] <= 1073741824)
+//@     invariant idx:   0 <= i && i <= len(clause.lits) && minW >= 0 && card == entry1(clause.Cardinality()) && card >= 1 && card <= 1073741824
+//@     invariant seen:  forall(k, 0, i, clause.lits[k] / 2 < s.nbVars)
+//@     invariant keptW: clause.pbData != nil ==> forall(k, 0, i, clause.pbData.weights[k] >= 1)
+//@     invariant l1:    forall(v, 0, s.nbVars, absi(s.model[v]) <= 1)
+//@     invariant kept:  forall(k, 0, i, s.model[clause.lits[k] / 2] == 0)
+//@     invariant sums:  maxW == minW + wsumc(clause, i)
+//@     invariant cardv: clause.Cardinality() == maxi(card - minW, 1)
+//@   ensures  wf:    WFopt(s) && s.nbVars >= old(s.nbVars)
+//@   ensures  cost:  sameCost(s)
 //@   ensures  keep:  s.status != Unsat ==> (smodels(s, A) <==> (old(smodels(s, A)) && old(holds(clause, A))))
 //@   ensures  unsat: s.status == Unsat && old(s.status) != Unsat ==> !(old(smodels(s, A)) && old(holds(clause, A)))
 //@   ensures  sticky: old(s.status) == Unsat ==> s.status == Unsat
-//@   ensures  flags:  s.Verbose == old(s.Verbose) && s.lastModel == old(s.lastModel) && forall(v, 0, len(s.lastModel), s.lastModel[v] == old(s.lastModel[v]))
+//@   ensures  flags:  s.Verbose == old(s.Verbose) && s.lastModel == old(s.lastModel)
+//@   ensures  flagsM: forall(v, 0, len(s.lastModel), s.lastModel[v] == old(s.lastModel[v]))
 
 //@ func (*Solver).rebuildOrderHeap
 //@   trusted
@@ -552,10 +583,17 @@ package solver
 //@   sort Sort#1 modifies s.hypothesis[*], weights[*]
 //@   sort Sort#1 invariant lens: len(weights) == len(s.hypothesis) && len(s.hypothesis) == len(s.minLits)
 //@   sort Sort#1 invariant perm: forallasg(B, psum(s.hypothesis, weights, B, len(s.hypothesis)) == maxCost - costOf(s, B))
+//@   sort Sort#1 invariant hypWF: litsWF(s.hypothesis, s.nbVars)
+//@   sort Sort#1 invariant wrng: forall(k, 0, len(weights), 0 <= weights[k] && weights[k] <= 1073741824)
+//@   assert before-call Sort#1 welem: s.minWeights != nil ==> lem_wsum_elem(s.minWeights, len(s.minWeights))
+//@   assert before-call Sort#1 hypWF: litsWF(s.hypothesis, s.nbVars)
+//@   assert before-call Sort#1 wrng: forall(k, 0, len(weights), 0 <= weights[k] && weights[k] <= 1073741824)
 //@   loop 4
 //@     invariant wf:    WFopt(s) && sameMin(s) && maxCost >= 0 && (s.minWeights == nil ==> maxCost == len(s.minLits)) && (s.minWeights != nil ==> maxCost == wsum(s.minWeights, len(s.minWeights)))
 //@     invariant shape: s.minLits != nil && len(s.hypothesis) == len(s.minLits) && len(weights) == len(s.minLits) && fresh(weights) && s.lastModel != nil && len(s.lastModel) <= s.nbVars && len(s.lastModel) <= len(s.model)
 //@     invariant H:     forallasg(B, psum(s.hypothesis, weights, B, len(s.hypothesis)) == maxCost - costOf(s, B))
+//@     invariant hypWF: litsWF(s.hypothesis, s.nbVars)
+//@     invariant wrng:  forall(k, 0, len(weights), 0 <= weights[k] && weights[k] <= 1073741824)
 //@     invariant st1:   status == s.status
 //@     invariant st2:   status == Sat || status == Unsat
 //@     invariant st4:   status == Sat || res.Status == Sat
@@ -603,6 +641,11 @@ package solver
 //@   sort Sort#1 modifies s.hypothesis[*], weights[*]
 //@   sort Sort#1 invariant lens: len(weights) == len(s.hypothesis) && len(s.hypothesis) == len(s.minLits)
 //@   sort Sort#1 invariant perm: forallasg(B, psum(s.hypothesis, weights, B, len(s.hypothesis)) == maxCost - costOf(s, B))
+//@   sort Sort#1 invariant hypWF: litsWF(s.hypothesis, s.nbVars)
+//@   sort Sort#1 invariant wrng: forall(k, 0, len(weights), 0 <= weights[k] && weights[k] <= 1073741824)
+//@   assert before-call Sort#1 welem: s.minWeights != nil ==> lem_wsum_elem(s.minWeights, len(s.minWeights))
+//@   assert before-call Sort#1 hypWF: litsWF(s.hypothesis, s.nbVars)
+//@   assert before-call Sort#1 wrng: forall(k, 0, len(weights), 0 <= weights[k] && weights[k] <= 1073741824)
 //@   assert before-call NewPBClause#1 frameB: forallasg(B, smodels(s, B) <==> head(smodels(s, B)))
 //@   assert before-call NewPBClause#1 le: lem_psum_le(s.minLits, s.minWeights, asgof(s.model), len(s.minLits)) && cost == costOf(s, asgof(s.model))
 //@   assert before-call NewPBClause#1 inst: asgmark(asgof(s.model))
@@ -615,6 +658,8 @@ package solver
 //@     invariant wf:    WFopt(s) && sameMin(s) && maxCost >= 0 && (s.minWeights == nil ==> maxCost == len(s.minLits)) && (s.minWeights != nil ==> maxCost == wsum(s.minWeights, len(s.minWeights)))
 //@     invariant shape: s.minLits != nil && len(s.hypothesis) == len(s.minLits) && len(weights) == len(s.minLits) && fresh(weights) && s.lastModel != nil && len(s.lastModel) <= s.nbVars && len(s.lastModel) <= len(s.model)
 //@     invariant H:     forallasg(B, psum(s.hypothesis, weights, B, len(s.hypothesis)) == maxCost - costOf(s, B))
+//@     invariant hypWF: litsWF(s.hypothesis, s.nbVars)
+//@     invariant wrng:  forall(k, 0, len(weights), 0 <= weights[k] && weights[k] <= 1073741824)
 //@     invariant st1:   status == s.status
 //@     invariant st2:   status == Sat || status == Unsat
 //@     invariant st3:   cost >= 0 && (status == Sat || cost > 0)
@@ -700,6 +745,7 @@ package solver
 //@   ensures  keepc: old(forall(v, 0, s.nbVars, s.reason[v] != keepc)) && keepc != nil ==> keepc.lbdValue == old(keepc.lbdValue)
 //@   ensures  cards: forallobj(c, Clause, c.Cardinality() == old(c.Cardinality()) && c.Learned() == old(c.Learned()))
 //@   ensures  wf:    WFlen(s) && WFsep(s) && WFsepWl(s)
+//@   ensures  queue: grown(s.varQueue.content) && grown(s.varQueue.indices)
 
 // addLearnedUnit binds the literal at level 1 (and reports it when certification is on)
 //@ func (*Solver).addLearnedUnit
@@ -719,7 +765,7 @@ package solver
 //@   ensures  flags: forall(v, 0, len(s.assumptions), s.assumptions[v] == old(s.assumptions[v]))
 //@   ensures  wf:   WFlen(s)
 //@   ensures  trail: grown(s.trail)
-//@   ensures  keepl: arr(keepl) != arr(old(s.trail)) ==> forall(k, 0, len(keepl), keepl[k] == old(keepl[k]))
+//@   ensures  keepl: !aliased(keepl, old(s.trail)) ==> forall(k, 0, len(keepl), keepl[k] == old(keepl[k]))
 
 // Assume: the previous round's assumptions are dropped, the problem's unit constraints are bound
 // again, exactly the listed variables are flagged, and unless the round is refuted at once every
@@ -806,6 +852,9 @@ package solver
 //@   ensures  len:  len(c.lits) == old(len(c.lits)) - 1 && (c.pbData != nil ==> len(c.pbData.weights) == len(c.lits))
 //@   ensures  moved: idx < len(c.lits) ==> c.lits[idx] == old(c.lits[len(c.lits)-1])
 //@   ensures  rest: forall(k, 0, len(c.lits), k != idx ==> c.lits[k] == old(c.lits[k]))
+//@   ensures  arrs: sameArray(c.lits, old(c.lits)) && (c.pbData != nil ==> sameArray(c.pbData.weights, old(c.pbData.weights)))
+//@   ensures  movedW: c.pbData != nil && idx < len(c.lits) ==> c.pbData.weights[idx] == old(c.pbData.weights[len(c.lits)-1])
+//@   ensures  restW: c.pbData != nil ==> forall(k, 0, len(c.lits), k != idx ==> c.pbData.weights[k] == old(c.pbData.weights[k]))
 
 // updateCardinality(add): the degree becomes max(degree + add, 1) (never below 1)
 //@ func (*Clause).updateCardinality
@@ -842,3 +891,52 @@ package solver
 //@   assert after-loop 3 term2: err == nil && val == 0 ==> pb.Clauses[len(pb.Clauses) - 1] != nil
 //@   assert after-loop 3 term3: err == nil && val == 0 ==> pb.Clauses[len(pb.Clauses) - 1].lits == lits
 //@   assert after-loop 3 kept: forall(k, 0, entry3(len(pb.Clauses)), pb.Clauses[k] == entry3(pb.Clauses[k]))
+
+// ---------------------------------------------------------------- independence of solver instances (C16)
+
+// The conflict-analysis path is the only code that ever wrote through a package-level variable
+// (the learned-clause buffer). Its frame is stated exactly: it writes the solver's own buffer and
+// heuristic tables, its arguments and freshly allocated memory, nothing else. Index safety and the
+// meaning of the learned clause are NOT specified here (the search is not under contract).
+//@ func (*Solver).varBumpActivity
+//@   trusted
+//@   modifies s.activity[*], s.varInc, s.varQueue.content[*], s.varQueue.indices[*]
+
+//@ func (*Solver).clauseBumpActivity
+//@   trusted
+//@   modifies all Clause.activity, s.clauseInc
+
+//@ func sortLiterals
+//@   inline-calls (Lit).Var, (Lit).Negation, (Lit).IsPositive
+//@   modifies lits[*]
+//@   sort Sort#1 modifies lits[*]
+
+//@ func (*Clause).computeLbd
+//@   trusted
+//@   modifies c.lbdValue
+
+//@ func (*Solver).addClauseLits
+//@   inline-calls (Lit).Var, (Lit).Negation, (Lit).IsPositive, (*Solver).litStatus
+//@   requires nn: s != nil && confl != nil && lits != nil
+//@   modifies met[*], metLvl[*], *lits, (*lits)[*], s.activity[*], s.varInc, s.varQueue.content[*], s.varQueue.indices[*]
+//@   ensures  grown: grown(*lits)
+//@   loop 1
+//@     invariant own: grown(*lits)
+
+//@ func (*Solver).minimizeLearned
+//@   inline-calls (Lit).Var, (Lit).Negation, (Lit).IsPositive, (*Solver).litStatus
+//@   requires nn: s != nil
+//@   modifies learned[*]
+
+//@ func (*Solver).learnClause
+//@   inline-calls (Lit).Var, (Lit).Negation, (Lit).IsPositive, (*Solver).litStatus
+//@   requires nn: s != nil && confl != nil
+//@   modifies s.bufLits, s.bufLits[*], s.activity[*], s.varInc, s.varDecay, s.clauseInc, s.varQueue.content[*], s.varQueue.indices[*], all Clause.activity
+//@   loop 1
+//@     invariant own: s.bufLits != nil && (arr(lits) == arr(s.bufLits) || fresh(lits))
+//@   loop 2
+//@     invariant own: s.bufLits != nil && (arr(lits) == arr(s.bufLits) || fresh(lits))
+//@   loop 3
+//@     invariant own: s.bufLits != nil && (arr(lits) == arr(s.bufLits) || fresh(lits))
+//@   loop 4
+//@     invariant own: s.bufLits != nil && (arr(lits) == arr(s.bufLits) || fresh(lits))
